@@ -1,14 +1,15 @@
 /-
-C08 — the parser/compiler is total: the lexer → converter contract.
-PROPERTY THEOREMS ONLY (lemmas: Proofs/Lexer*.lean, Proofs/Regex*.lean, Proofs/Tokenizer*.lean;
-models: Martian/Lexer*.lean, Martian/Regex.lean, Martian/Tokenizer.lean).
+C08 — the parser/compiler is total.
+PROPERTY THEOREMS ONLY (lemmas: Proofs/Lexer*.lean, Proofs/Regex*.lean, Proofs/Tokenizer*.lean,
+Proofs/LexerLR.lean; models: Martian/Lexer*.lean, Martian/Regex.lean, Martian/Tokenizer.lean).
 
-What is proved for ALL byte strings: every token the lexer hands to a
-converter (`parseInt`, `parseFloat`, `unquoteBytes`) is converted without a
-panic, the `src_stm` grammar action never indexes an empty slice, and the
-`Lex` loop always makes progress.  "Never crashes / hangs" for the whole
-goyacc-generated parser and the compiler is NOT a theorem (a Lean model of that
-Go code is out of reach); it is covered by the search in harness/c08.go.
+What is proved for ALL byte strings / token sequences: the token rules are their regenerated regexes;
+the whole tokenizer (progress, termination, reconstruction, real line numbers); the lexer → converter
+contract through the interpreted tokenizer; the modelled grammar actions are total on emitted tokens;
+the goyacc DRIVER loop on the regenerated tables is memory safe, terminating and located
+(`lr_checker_sound`, `lr_tables_checked`).  NOT a theorem (search only, harness/c08.go): the Go code
+inside the semantic actions beyond the modelled conversions, the growth of the value stack, include
+resolution, the compiler passes, and every clause about time or memory.
 -/
 import Martian.Lexer
 import Martian.Regex
@@ -26,7 +27,10 @@ import Martian.LexerLR
 import Martian.LexerLRCheck
 import Martian.LexerLRGen
 import Proofs.LexerLR
+import Proofs.LexerLRTables
+import Proofs.LexerLRFacts
 import Martian.LexerLRSem
+import Martian.LexerLRSites
 import Martian.Tokenizer
 import Proofs.Tokenizer
 import Gen.Facts
@@ -504,7 +508,7 @@ certificate the extractor computed from them (which states can lie below which
 on the stack; a rank of the states that every reduction lowers), pass the
 check.  Evaluated by the kernel: every (state, token) cell, every reduction
 with every possible exposed state. -/
-theorem lr_tables_checked : check genTables genCert = true := by decide +kernel
+theorem lr_tables_checked : check genTables genCert = true := gen_tables_checked
 
 /-- (a)–(d) for the parser as generated: memory safety, termination, progress
 of the error path (no state shifts `error`, so a syntax error ends the parse at
@@ -517,25 +521,127 @@ theorem lr_driver_total (fail : Nat → Bool) (input : List Int) :
 example : (runFuel genTables (fun _ => false) 100 (init [91, 57381, 93]) []).1 = .accept ∧
     (runFuel genTables (fun _ => false) 100 (init [91, 57381]) []).1 = .syntaxError 2 := by decide +kernel
 
-/-- **Lexing + LR driver + modelled actions are total and located**: for every
-source text (any bytes) the scanner loop terminates and its tokens reconstruct
-the source (`lex_terminates`, `lex_reconstructs`), the parser driver run on
-the scanner's token ids returns accept, an action error or a syntax error at
-one of these tokens or at the end of the input — whose reported line is its
-real line (`lex_real_line`) — and every modelled semantic action, on a token the
-scanner can emit, yields a value or a located error (`actions_total`).
-OUTSIDE: the Go code inside the semantic actions other than the modelled
-conversions (AST node construction, `append`, map insertion, comment
-attachment), the growth of the value stack (`make`/`copy`), and everything after
-parsing (include resolution, the compiler passes) — covered by the search only. -/
-theorem front_end_total (fail : Nat → Bool) (src : Martian.Lexer.Bytes) :
+/-- The tables are transported in chunks of 32: every table of the regenerated
+facts is well chunked, so the model's `tab[i/32][i%32]` is Go's `tab[i]`. -/
+theorem lr_tables_well_chunked :
+    (wellChunked genTables.exca && wellChunked genTables.act && wellChunked genTables.pact &&
+     wellChunked genTables.pgo && wellChunked genTables.r1 && wellChunked genTables.r2 &&
+     wellChunked genTables.chk && wellChunked genTables.dfl && wellChunked genTables.tok1 &&
+     wellChunked genTables.tok2 && wellChunked genTables.tok3 && wellChunked genCert.pred &&
+     wellChunked genCert.rank) = true := gen_lr_tables_well_chunked
+
+/-- The scanner's SKIP, COMMENT and INVALID ids (and `$end`, `error`) are never
+shifted by any state: after an INVALID token the driver asks for no further
+token (`tokenIds` may stop there), and SKIP/COMMENT would be rejected if `Lex`
+ever returned them. -/
+theorem lr_invalid_never_shifted :
+    ((["SKIP", "COMMENT", "INVALID"].all fun name =>
+        match lex1 genTables (Martian.Tokenizer.lookupId Gen.tokIds name : Nat) with
+        | some tok => neverShifted genTables tok
+        | none => false) &&
+      neverShifted genTables genTables.eofCode && neverShifted genTables genTables.errCode) = true := gen_lr_invalid_never_shifted
+
+/-- the oracle is consulted only at the productions whose action contains a
+`return` (`Gen.mmFailProds`): even the oracle "every action aborts" cannot make
+the parse of `[1]` fail -/
+example : (runFuel genTables (fun _ => true) 100 (init [91, 57381, 93]) []).1 = .accept := by decide +kernel
+
+/-- The grammar as regenerated from grammar.y (`Gen.mmProdRhs`) is the grammar of
+the parser tables: as many productions, every right-hand side as long as
+`mmR2` says, and left-hand side names and the nonterminal numbers of `mmR1`
+correspond one to one (`lhsPairs`: the distinct (name, number) pairs). -/
+theorem lr_productions_match_tables :
+    Gen.mmProdRhs.length = NP genTables ∧
+    ((List.range Gen.mmProdRhs.length).all fun n =>
+      n == 0 || ((prodRhs n).length : Int) == (genTables.r2.get? n).getD (-1)) = true ∧
+    (lhsPairs.all fun p => lhsPairs.all fun q => (p.1 == q.1) == (p.2 == q.2)) = true := gen_lr_productions_match_tables
+
+/-- The `mmDollar = mmS[mmpt-K : mmpt+1]` slice at the head of every action that
+uses `$i` takes exactly the right-hand side: K = `mmR2[n]` for every such
+production, so the slice is in range whenever the reduction does not pop below
+the bottom of the stack (`lr_checker_sound`). -/
+theorem lr_dollar_slices_match :
+    (Gen.mmDollarLen.all fun p => (genTables.r2.get? p.1) == some (p.2 : Int)) = true ∧
+    Gen.mmDollarLen.length > 0 := gen_lr_dollar_slices_match
+
+/-- Regenerated obligation on the CONVERSION CALL SITES: the calls of parseInt /
+parseFloat / tryParseFloat32 / unquote in the actions of grammar.go now are
+exactly the ones the action model (Martian/LexerActions.lean `Site`) was written
+for, and each is applied to a grammar symbol whose value is the text of a token
+of the kind the converter is total on (NUM_INT, NUM_FLOAT, LITSTRING; `help` and
+`outname` are chain productions over LITSTRING).  A new `parseInt($2)` on an ID,
+or an `unquote` moved to another symbol, breaks this. -/
+theorem conversion_sites_pinned :
+    (Gen.mmConvSites.map fun s => (prodLhs s.1, s.2.1, siteSymbol s)) = expectedSites ∧
+    (Gen.mmConvSites.all fun s => siteSymbol s == wants s.2.1 &&
+      ["parseInt", "parseFloat", "tryParseFloat32", "unquote"].contains s.2.1) = true := gen_conversion_sites_pinned
+
+/-- what "the converter does not panic" means per converter -/
+def convOK (fn : String) (t : Martian.Lexer.Bytes) : Prop :=
+  (fn = "parseInt" → ∃ i, parseInt t = some i) ∧
+  (fn = "parseFloat" → ∃ l, parseFloat false t = some l) ∧
+  (fn = "unquote" → ∃ out, unquoteBytes t = some out) ∧
+  (fn = "tryParseFloat32" → Martian.LexerActions.float32Float t ≠ .panic)
+
+/-- Every conversion call site of grammar.go, given the text of a token that one
+`nextToken` call emits with the kind of the site's grammar symbol, converts it
+(or, for `tryParseFloat32`, reports a located range error) without a panic. -/
+theorem conversion_sites_total (s : Nat × String × Nat) (hs : s ∈ Gen.mmConvSites)
+    (head t : Martian.Lexer.Bytes)
+    (h : Martian.Tokenizer.nextToken head = (Martian.Tokenizer.lookupId Gen.tokIds (siteSymbol s), t)) :
+    convOK s.2.1 t := by
+  have hp := (List.all_eq_true.mp conversion_sites_pinned.2) s hs
+  simp only [Bool.and_eq_true, beq_iff_eq] at hp
+  rw [hp.1] at h
+  have hc := tokenizer_converter_contract head t
+  refine ⟨?_, ?_, ?_, ?_⟩
+  · intro e; rw [e] at h; exact hc.2.1 (by simpa [wants] using h)
+  · intro e; rw [e] at h; exact hc.1 (by simpa [wants] using h)
+  · intro e; rw [e] at h; exact hc.2.2 (by simpa [wants] using h)
+  · intro _; exact Martian.LexerActions.float32Float_no_panic t
+
+/-- **Scanner, LR driver and conversion sites, for one source text** (`_partial`:
+see the gap below).  For every source (any bytes) and every oracle for the
+aborting actions (consulted only at the productions of `Gen.mmFailProds`):
+(1) the scanner loop stops on its own (more fuel changes nothing), the texts of
+all its tokens followed by the unconsumed rest are the source, and a rest is
+left only after an INVALID token;
+(2) the parser driver, run on the ids of the scanner's tokens, returns accept, an
+action error, or a syntax error at one of these tokens or at the end of the
+input — never an index panic, never out of fuel;
+(3) every token `t` of the stream is the result of one `nextToken` call on a
+suffix of the source, and EVERY conversion call site of grammar.go whose grammar
+symbol is `t`'s kind converts `t`'s text without a panic.
+GAP (not proved): that the `$i` a conversion site reads during the parse is the
+text of a token of the stream of the site's symbol — it is, by the LR discipline
+(a terminal on the right-hand side is a shifted token, `help`/`outname` pass it
+on), but the value stack is not in this model outside the value-expression
+sub-grammar (`parseLR`); the position of a syntax error at the END of the input
+(`endLoc`) and the columns have no theorem (`lex_real_line` covers the lines of
+tokens).  OUTSIDE altogether: the Go code inside the semantic actions other than
+the conversions (AST node construction, `append`, map insertion, comment
+attachment), the growth of the value stack (`make`/`copy`), include resolution
+and the compiler passes — search only. -/
+theorem front_end_total_partial (fail : Nat → Bool) (src : Martian.Lexer.Bytes) :
+    ((∀ f, src.length + 1 ≤ f →
+        Martian.Tokenizer.lexRawFuel Martian.Tokenizer.genTables f src Martian.Tokenizer.startLoc
+          = Martian.Tokenizer.lexAllRaw src) ∧
+      (((Martian.Tokenizer.lexAllRaw src).1.map Martian.Tokenizer.Tok.text).flatten
+          ++ (Martian.Tokenizer.lexAllRaw src).2 = src) ∧
+      ((Martian.Tokenizer.lexAllRaw src).2 ≠ [] → ∃ pre t, (Martian.Tokenizer.lexAllRaw src).1 = pre ++ [t] ∧
+          t.id = Martian.Tokenizer.invalidId Martian.Tokenizer.genTables)) ∧
     GoodOutcome (Martian.Tokenizer.lexAll src).length (parseSource fail src).1 ∧
-    (((Martian.Tokenizer.lexAllRaw src).1.map Martian.Tokenizer.Tok.text).flatten ++ (Martian.Tokenizer.lexAllRaw src).2 = src) ∧
-    (∀ (s : Martian.LexerActions.Site) (k : Martian.LexerActions.Kind) (head t : Martian.Lexer.Bytes),
-      Martian.LexerActions.emits k head t → Martian.LexerActions.act s k t ≠ .panic) := by
-  refine ⟨?_, (lex_reconstructs src).1, fun s k head t h => Martian.LexerActions.actions_total s k head t h⟩
-  have := lr_driver_total fail (tokenIds src)
-  simpa [parseSource, tokenIds] using this
+    (∀ t ∈ Martian.Tokenizer.lexAll src,
+      (∃ head, Martian.Tokenizer.nextToken head = (t.id, t.text)) ∧
+      ∀ s ∈ Gen.mmConvSites, t.id = Martian.Tokenizer.lookupId Gen.tokIds (siteSymbol s) → convOK s.2.1 t.text) := by
+  refine ⟨⟨fun f hf => lex_terminates src f hf, (lex_reconstructs src).1, (lex_reconstructs src).2⟩, ?_, ?_⟩
+  · have := lr_driver_total fail (tokenIds src)
+    simpa [parseSource, tokenIds] using this
+  · intro t ht
+    obtain ⟨head, hh⟩ := Martian.Tokenizer.lexAll_mem src t ht
+    refine ⟨⟨head, hh⟩, ?_⟩
+    intro s hs hid
+    exact conversion_sites_total s hs head t.text (by rw [hh, hid])
 
 /-- Regenerated obligation for the semantic values of the value-expression
 sub-grammar (`parseLR`, Martian/LexerLRSem.lean; used by Props/C09Tie.lean):
@@ -544,7 +650,7 @@ now, and no two productions with different modelled actions share a text.  A
 changed action body is no longer recognised and breaks this. -/
 theorem lr_value_actions_recognised :
     (semTable.all fun p => Gen.mmProdBody.any fun q => q.2 == p.1) = true ∧
-    (semTable.all fun p => semTable.all fun q => p.1 != q.1 || p.2 == q.2) = true := by decide +kernel
+    (semTable.all fun p => semTable.all fun q => p.1 != q.1 || p.2 == q.2) = true := gen_lr_value_actions_recognised
 
 end lr
 
@@ -563,7 +669,8 @@ theorem facts_extracted :
     Gen.mmPrivate_extracted = true ∧ Gen.mmFlag_extracted = true ∧ Gen.mmErrCode_extracted = true ∧
     Gen.mmEofCode_extracted = true ∧ Gen.mmNToknames_extracted = true ∧ Gen.mmNErrorMessages_extracted = true ∧
     Gen.mmFailProds_extracted = true ∧ Gen.mmPred_extracted = true ∧ Gen.mmRank_extracted = true ∧
-    Gen.mmProdBody_extracted = true := by decide
+    Gen.mmProdBody_extracted = true ∧ Gen.mmProdRhs_extracted = true ∧ Gen.mmConvSites_extracted = true ∧
+    Gen.mmDollarLen_extracted = true := by decide
 
 /-! ### definitional unfoldings (documentation of the model, not guarantees) -/
 
